@@ -98,6 +98,10 @@ func Float32Bits() []uint32 {
 	return out
 }
 
+// OnPanic, when set, receives a panic that escaped f in a ParallelRange worker (the chunk is
+// abandoned, the other chunks continue); when nil the panic propagates and ends the process.
+var OnPanic func(r interface{}, stack string)
+
 // ParallelRange calls f(lo, hi) on consecutive chunks of [0, n) from GOMAXPROCS goroutines.
 func ParallelRange(n uint64, f func(lo, hi uint64)) {
 	nw := uint64(runtime.GOMAXPROCS(0))
@@ -112,7 +116,17 @@ func ParallelRange(n uint64, f func(lo, hi uint64)) {
 		go func() {
 			defer wg.Done()
 			for r := range ch {
-				f(r[0], r[1])
+				func() {
+					if OnPanic != nil {
+						defer func() {
+							if p := recover(); p != nil {
+								buf := make([]byte, 8192)
+								OnPanic(p, string(buf[:runtime.Stack(buf, false)]))
+							}
+						}()
+					}
+					f(r[0], r[1])
+				}()
 			}
 		}()
 	}
